@@ -455,6 +455,32 @@ func FalseRuleVariants(n *model.Node) []*model.Node {
 	return out
 }
 
+// AddFalseRules inserts EVERY applicable false-valued rule (nullable, const, exclusive flags
+// whose bound exists) at random positions of the node's rule list, in place. They are inert for
+// validation whatever their order; null is among the documents worth probing afterwards.
+func AddFalseRules(r *mon.Rng, n *model.Node) {
+	var names []string
+	if n.Rule("nullable") == nil {
+		names = append(names, "nullable")
+	}
+	if n.Rule("const") == nil && (n.Rule("type") == nil || n.Rule("type").Str != "any") && n.IsScalar() {
+		names = append(names, "const")
+	}
+	if n.Rule("min") != nil && n.Rule("exclusiveMinimum") == nil {
+		names = append(names, "exclusiveMinimum")
+	}
+	if n.Rule("max") != nil && n.Rule("exclusiveMaximum") == nil {
+		names = append(names, "exclusiveMaximum")
+	}
+	mon.Shuffle(r, names)
+	for _, name := range names {
+		pos := r.Intn(len(n.Rules) + 1)
+		rs := append([]*model.Rule{}, n.Rules[:pos]...)
+		rs = append(rs, model.RBool(name, false))
+		n.Rules = append(rs, n.Rules[pos:]...)
+	}
+}
+
 // respellParam sometimes writes a bound with trailing zeros (1.50, 2.0): the rule text must be
 // reproduced as written while its value stays the same. Exponents are not allowed in schemas.
 func respellParam(r *mon.Rng, p string) string {
